@@ -1,0 +1,45 @@
+//go:build verif
+
+package cache
+
+import "io"
+
+// Proof harnesses for the verification in /verif (build tag verif only; never called). Each function is an
+// ordinary caller of the library: the verifier checks it against the CONTRACTS of its callees, so its
+// postcondition is a lemma that follows from those contracts alone.
+
+// verifRelay dumps src into a pipe and restores dst from it: the relay step of the transfer property.
+func verifRelay(src, dst *ShardedMap, w io.Writer, r io.Reader) (int, int, error) {
+	n, err := src.Dump(w)
+	if err != nil {
+		return n, 0, err
+	}
+
+	m, err := dst.Restore(r)
+
+	return n, m, err
+}
+
+// verifRelayToSync: the same relay step from a ShardedMap into a SyncMap.
+func verifRelayToSync(src *ShardedMap, dst *SyncMap, w io.Writer, r io.Reader) (int, int, error) {
+	n, err := src.Dump(w)
+	if err != nil {
+		return n, 0, err
+	}
+
+	m, err := dst.Restore(r)
+
+	return n, m, err
+}
+
+// verifRelayFromSync: from a SyncMap into a ShardedMap (which cannot hold two keys with the same hash).
+func verifRelayFromSync(src *SyncMap, dst *ShardedMap, w io.Writer, r io.Reader) (int, int, error) {
+	n, err := src.Dump(w)
+	if err != nil {
+		return n, 0, err
+	}
+
+	m, err := dst.Restore(r)
+
+	return n, m, err
+}
